@@ -16,6 +16,9 @@ def sub(tb, S, T):
     return rsub.sub(tb, S, T, 'may')
 
 class Unknown(Exception): pass
+class OnlyBottom(Unknown):
+    """write position whose type mentions, through invariant positions only, a class parameter the receiver projects:
+    the captured type equals nothing the program can write down, so only the bottom value is acceptable"""
 
 def conv(t):
     """IR type -> term"""
@@ -397,6 +400,9 @@ class Checker:
                             T=self._apply_recv(subst(conv_any(f.field_type),cm),m,False)
                     if T is None: self.alarm('assign-unresolved',path,R,None,e.name); raise Unknown('x')
                 self.expect('assign',path,self.synth(e.expr,path,sc,T),T)
+            except OnlyBottom:
+                try: self.only_bottom('assign-through-projected-receiver',e.expr,path,sc,e.name)
+                except Unknown as u: self.stats['unknown:'+str(u)]+=1
             except Unknown as u: self.stats['unknown:'+str(u)]+=1
             return B(self.void)
         if isinstance(e, ast.FunctionCall):
@@ -445,16 +451,29 @@ class Checker:
         mm={}
         for k,a in m.items():
             mm[k]=a
-        def sb(t,top):
+        def sb(t,top,inv_path):
             if t[0]=='v' and t[1] in mm:
                 a=mm[t[1]]
                 if a[0]=='t': return a[1]
                 if top and reading and a[0]=='out': return a[1]
                 if top and not reading and a[0]=='in': return a[1]
+                if not top and not reading and inv_path: raise OnlyBottom('only-bottom:'+t[1])
                 raise Unknown('member-type-through-projection')
-            if t[0]=='c': return ('c',t[1],tuple(x if x[0]=='*' else (x[0],sb(x[1],False)) for x in t[2]))
+            if t[0]=='c':
+                info=self.tb.cls.get(t[1]); args=[]
+                for i,x in enumerate(t[2]):
+                    if x[0]=='*': args.append(x); continue
+                    pv=info.params[i][1] if info is not None and i<len(info.params) else None
+                    args.append((x[0],sb(x[1],False,inv_path and x[0]=='t' and pv=='inv')))
+                return ('c',t[1],tuple(args))
             return t
-        return sb(t,True)
+        return sb(t,True,True)
+    def only_bottom(self,kind,expr,path,sc,what):
+        """judge a write position that only the bottom value can fill (see OnlyBottom)"""
+        self.stats['positions']+=1; self.stats['only-bottom-positions']+=1
+        if isinstance(expr, ast.BottomConstant): return
+        at=self.synth(expr,path,sc,None)
+        if at!=NOTHING: self.alarm(kind,path,None,at,what)
     def call(self,e,path,sc,expected=None):
         B=lambda n:('c',n,())
         # resolve
@@ -568,6 +587,9 @@ class Checker:
                 else: pt_t=conv_any(pt)
                 pt_t=subst(self._apply_recv(subst(subst(pt_t,ren),cm),m,False),fm)
                 self.expect('call-arg',path,self.synth(a.expr,path,sc,pt_t),pt_t)
+            except OnlyBottom:
+                try: self.only_bottom('call-arg-through-projected-receiver',a.expr,path,sc,fdecl.name+'.'+p.name)
+                except Unknown as u: self.stats['unknown:'+str(u)]+=1
             except Unknown as u: self.stats['unknown:'+str(u)]+=1
         rt=fdecl.ret_type if fdecl.ret_type is not None else fdecl.inferred_type
         return subst(self._apply_recv(subst(subst(conv_any(rt),ren),cm),m,True),fm)
